@@ -2,11 +2,11 @@
 from reg._common import COMMON_ASSUME
 
 ENTRY = {
-    'lean_files': ['Tables/C12.lean', 'Props/C12.lean', 'Props/C12More.lean', 'Tables/C12Quad.lean', 'Props/C12Quad.lean'],
-    'lemma_files': ['Model/Quadrature.lean', 'Lemmas/Quadrature.lean', 'Lemmas/QuadratureReal.lean', 'Lemmas/Deriv.lean', 'Lemmas/TriDeriv.lean', 'Model/TriDeriv.lean', 'Lemmas/Green.lean', 'Model/Basic.lean', 'Model/Curve.lean', 'Model/Area.lean'],
+    'lean_files': ['Tables/C12.lean', 'Props/C12.lean', 'Props/C12More.lean', 'Tables/C12Quad.lean', 'Props/C12Quad.lean', 'Tables/C12QuadAdaptive.lean', 'Props/C12QuadAdaptive.lean'],
+    'lemma_files': ['Model/QuadratureAdaptive.lean', 'Lemmas/QuadratureAdaptive.lean', 'Model/Quadrature.lean', 'Lemmas/Quadrature.lean', 'Lemmas/QuadratureReal.lean', 'Lemmas/Deriv.lean', 'Lemmas/TriDeriv.lean', 'Model/TriDeriv.lean', 'Lemmas/Green.lean', 'Model/Basic.lean', 'Model/Curve.lean', 'Model/Area.lean'],
     'script': 'props/c12.py',
-    'scripts': ['props/c12.py', 'props/c12q.py'],
-    'extractors': ['extract_quadpack.py'],
+    'scripts': ['props/c12.py', 'props/c12q.py', 'props/c12a.py'],
+    'extractors': ['extract_quadpack.py', 'extract_quadpack_adaptive.py'],
     # the pure-Python compute_length needs SciPy, which only the tooling interpreter has
     'python': {'pure': '/usr/local/bin/python3-vt'},
     'rule': 'area: complete quadratic-form table of one edge on pairs of unit nets (x = scale*e_i, y = e_j; exact) for edge degrees '
@@ -17,7 +17,7 @@ ENTRY = {
             'additivity over subdivision; non-trivial = net not all zero; distinct by hash of exact inputs',
     'partial': [
                 "length: the non-adaptive core of the quadrature is inside the model (Model/Quadrature.lean: dqk21 with its running variables, the first-step exit test of dqagse, the integrand |B'(s)| with sqrt as a parameter) and tied to the source: the Gauss-Kronrod tables, loop bodies, call shapes and tolerances are extracted from quadpack.f90 / curve.f90 on every run (harness/extract_quadpack.py) and Tables/C12Quad proves by kernel evaluation that the extracted 21-point rule reproduces the moments up to 10^-33 for degree <= 31 (embedded Gauss rule: 2*10^-33 for degree <= 19), weights positive, nodes ordered; Props/C12Quad: the rule is linear and affine-invariant, exact on polynomials of degree <= 31 up to that residual, the raw error estimate vanishes on degree <= 19, the transcribed dqagse accepts after the first step there, first_step_polynomial_speed: for curves whose speed is a polynomial the first step returns the exact length up to eps/2 * sum|q_k| (also stated against Mathlib's interval integral over the reals); props/c12q.py ties Curve.length to the model on lines and Pythagorean-hodograph curves (degree <= 11) in both configurations",
-                "still external: dqagse's bisection loop, dqelg (epsilon extrapolation), dqpsrt and the 1.5-power rescaling of the error estimate (a parameter with pow15 t <= t on [0,1]); for curves whose speed is not polynomial the accuracy of the adaptive quadrature is cross-checked numerically only (additivity under subdivision, invariance under elevation, closed forms); SciPy's QUADPACK is trusted to be the same rule (the pure configuration is consistent with that)",
+                "the ADAPTIVE part is inside the model as well (Model/QuadratureAdaptive.lean: dqagse main loop with bisection, roundoff counters, ier codes and extrapolation control, dqelg epsilon table, dqpsrt ordering - statement by statement; harness/extract_quadpack_adaptive.py matches every executable statement of the three routines token for token against the modelled templates and extracts their literals, Tables/C12QuadAdaptive ties them to the model's constants); the model runs in exact arithmetic with sqrt and x^1.5 supplied through an oracle protocol (harness/quad_oracle.py, 2^-96 accuracy, also perturbed by 2^-47 / 2^-52 to recognise fragile discrete paths) and props/c12a.py compares Curve.length AND the routine itself (compiled dqagse through ctypes, scipy quad with full_output in the pure configuration): value, last, ier, neval, the interval / result / error lists and iord are identical on every robust case; proved (Props/C12QuadAdaptive): dqpsrt_spec (descending order of the listed errors, maxerr / ermax), agse_partition (the intervals always partition [a,b], area = sum rlist, errsum = sum elist exactly), the returned result is the first-step value, the sum of rlist or an extrapolated reseps, neval = 42 last - 21, consistency with the first-step model and exactness on polynomials of degree <= 19, totality (never out of fuel for limit >= 2); NOT proved: any accuracy statement for non-polynomial integrands (what the bisection / epsilon algorithm converge to) - checked numerically only; external: sqrt, x^1.5; SciPy's QUADPACK is trusted to be the same algorithm (every compared path was identical)",
                 'area: proved for every net - the shoelace tables are the Green integral (edge degrees 1..4), the error branches; Props/C12More: the area of a triangle of degree 1..4 computed from its three edges equals the formal double integral of the Jacobian determinant, invariance under elevation of an edge (2..4 nodes), additivity under subdivision of an edge (2..5 nodes); a degree-independent formal Green theorem is not given (edges of degree >= 5 raise in the code anyway)',
     ],
     'trusted_base': ['modelled not verified: shoelace_for_area / compute_area in triangle_helpers.py and triangle.f90, Triangle.area, '
